@@ -5,7 +5,7 @@ from __future__ import annotations
 import ast
 
 from ..fold import CannotFold, Folder, module_const, need
-from ..interp import alternatives, analyze, truth
+from ..interp import deep_walk, alternatives, analyze, truth
 from ..model import AnalysisError, Model
 from ..oracle import C0_AND_SPACE, REMOVED
 from ..report import Ctx, where
@@ -71,6 +71,23 @@ def t11(ctx: Ctx):
             if not isinstance(table, dict) or any(v is not None for v in table.values()):
                 raise AnalysisError("split_url: translate() with a table that does more than delete characters (unknown idiom)")
             removed |= {chr(k) if isinstance(k, int) else k for k in table}
+    # ... and they are removed before anything is split off: the text the scheme is looked for in (and therefore everything
+    # derived from it) is the cleaned text. A TAB inside "ht\ttp:" must not hide the scheme.
+    def cleaned(t):
+        return any(x[0] == "call" and x[1][0] == "attr" and x[1][2] in ("replace", "translate") for x in deep_walk(r, t))
+    searched = []
+    for e in r.by_kind("call"):
+        if e.func[0] == "attr" and e.func[2] in ("find", "index", "partition", "split") and e.args and e.args[0] == ("const", ":"):
+            searched.append((e, e.func[1]))
+        elif e.func[0] == "attr" and e.func[2] in ("match", "fullmatch") and e.func[1][0] == "global" and e.args:
+            searched.append((e, e.args[0]))
+    if searched:
+        e0, text = searched[0]          # the first ':' search / pattern match in program order is the scheme detection
+        ctx.instance(rule)
+        ctx.ob(rule, fi.qual, f"scheme detection on {show(text)[:60]}", cleaned(text),
+               "the scheme is looked for in text from which TAB/CR/LF have not been removed yet: 'ht\\ttp://h/' would be parsed as a "
+               "path (the characters are removed 'everywhere', so they must be gone before the first split)",
+               where(fi, e0.node), sample="scheme searched in the cleaned text")
     ctx.instance(rule)
     ctx.ob(rule, fi.qual, "removed characters", frozenset(removed) == REMOVED, f"characters removed everywhere are {sorted(removed)!r}, expected TAB, CR, LF",
            where(fi, fi.node), sample="\\t \\r \\n")
@@ -135,13 +152,28 @@ def split_url_table(ctx: Ctx):
             continue
         finds = [t for a in e.args for t in walk(a) if is_find(t) and
                  (t[2][0][0] == "const" or (t[2][0][0] == "elem" and t[2][0][1][0] == "const" and isinstance(t[2][0][1][1], str)))]
-        if not finds:
+        selected = [t for a in e.args for t in walk(a) if is_find(t) and t[2][0][0] == "elem" and t[2][0][1][0] != "const"]
+        if not finds and not selected:
             continue
-        url_t = finds[0][1][1]
-        chars = "".join(sorted({c for t in finds for c in (t[2][0][1] if t[2][0][0] == "const" else t[2][0][1][1])}))
-        hq = truth(("cmp", "In", ("const", "?"), url_t), e.state.facts)
-        hh = truth(("cmp", "In", ("const", "#"), url_t), e.state.facts)
-        auth_delims.setdefault((chars, hq, hh), e)
+        url_t = (finds or selected)[0][1][1]
+        hq_t, hh_t = ("cmp", "In", ("const", "?"), url_t), ("cmp", "In", ("const", "#"), url_t)
+        if finds:
+            chars = "".join(sorted({c for t in finds for c in (t[2][0][1] if t[2][0][0] == "const" else t[2][0][1][1])}))
+            auth_delims.setdefault((chars, truth(hq_t, e.state.facts), truth(hh_t, e.state.facts)), e)
+        for t in selected:
+            # the delimiter string is picked from a table by the presence flags: every combination of the flags is folded
+            sel = t[2][0][1]
+            for hq in (True, False):
+                for hh in (True, False):
+                    if truth(hq_t, e.state.facts) not in (None, hq) or truth(hh_t, e.state.facts) not in (None, hh):
+                        continue
+                    try:
+                        chars = Folder(ctx.model, {hq_t: hq, hh_t: hh}).fold(sel)
+                    except CannotFold as ex:
+                        raise AnalysisError(f"split_url: the authority terminators {show(sel)[:60]} cannot be folded: {ex} (unknown idiom)")
+                    if not isinstance(chars, str):
+                        raise AnalysisError(f"split_url: the authority terminators fold to {chars!r} (unknown idiom)")
+                    auth_delims.setdefault(("".join(sorted(chars)), hq, hh), e)
         # min() keeps the smallest; "not found" (-1) must have been filtered out and the default must be the end of the text
         comps = [t for a in e.args for t in walk(a) if t[0] == "comp" and len(t) > 4]
         nonneg = any(_is_nonneg_filter(f) for c in comps for f in c[4])
